@@ -46,10 +46,10 @@ def gen_cases(tier, seed):
     rng = gen.rng_for(seed, ID, tier)
     cs = itertools.count(1)
     reps = 4 if tier == "quick" else 40
-    for _ in range(reps):
+    for rep_i in range(reps):
         for alg, rel in RELATIONS:
             N = 3 if rel == "relabel" else int(rng.integers(3, 5))
-            yield {"w": "pair", "alg": alg, "rel": rel, "shape": [int(s) for s in rng.integers(3, 6, size=N)], "R": 2,
+            yield {"w": "pair", "alg": alg, "rel": rel, "shape": [int(s) for s in rng.integers(3, 6, size=N)], "R": 2, "zero_guess": bool(rep_i % 2),
                    "gseed": int(rng.integers(0, 2 ** 31)), "cseed": int(seed) * 217645177 % (2 ** 31) + next(cs)}
 
 
@@ -179,11 +179,14 @@ def run_case(case, ctx):
         Tc = ttb.tensor(Xc.copy())
         M0 = ttb.ktensor([rng.random((s, R)) + 0.1 for s in shape])
         kw = dict(algorithm=sub, maxiters=3, printinneritn=0)
-        if case["cseed"] % 2:
+        if case.get("zero_guess"):
             # inadmissible zeros in the first factor of the guess and a longer run: exercises the zero-repair step
-            M0.factor_matrices[0][rng.random(M0.factor_matrices[0].shape) < 0.4] = 0.0
-            M0.factor_matrices[0][0, :] = 0.3
-            kw["maxiters"] = 6
+            F0 = M0.factor_matrices[0]
+            for r_ in range(R):
+                F0[int(rng.integers(0, F0.shape[0])), r_] = 0.0
+            M0.weights[:] = np.round(rng.uniform(5.0, 30.0, size=R), 2)
+            kw["maxiters"] = 25
+            kw["stoptol"] = 1e-6
             ctx.feat(zero_guess=True)
         try:
             if rel == "dense-sparse":
@@ -193,7 +196,7 @@ def run_case(case, ctx):
                 _cmp(ctx, op, denote(a[0]), denote(b[0]), "dense vs sparse data")
             elif rel == "print":
                 a = _quiet(ttb.cp_apr, Tc, R, init=M0.copy(), printitn=0, **kw)
-                for pr in (1, 2):
+                for pr in (1, 2, 7):
                     b = _quiet(ttb.cp_apr, Tc, R, init=M0.copy(), printitn=pr, **kw)
                     _cmp(ctx, op, denote(a[0]), denote(b[0]), f"printitn 0 vs {pr}", printitn=pr)
             else:
